@@ -9,6 +9,19 @@ TY = {'unsigned char': 'u8', 'char': 'u8', 'signed char': 's8', 'short': 's16', 
       'const char': 'u8', 'const signed char': 's8', 'unsigned char *': 'ptr', 'char *': 'ptr'}
 
 
+
+class _ShardProc:
+    """one driver process on one shard file, stdout/stderr redirected to files next to it"""
+
+    def __init__(self, drv, fn):
+        self.fn = fn
+        self.p = subprocess.Popen(['bash', '-c', 'ulimit -s unlimited; exec "$0" "$1" > "$1.out" 2> "$1.err"', drv, fn])
+
+    def communicate(self, timeout=None):
+        self.p.wait(timeout=timeout)
+        self.returncode = self.p.returncode
+        return (open(self.fn + '.out', 'rb').read(), open(self.fn + '.err', 'rb').read())
+
 def sx_e(e):
     k = e[0]
     if k == 'num':
@@ -157,8 +170,8 @@ def run_csem(text, shards=None):
             fn = os.path.join(d, 'c%d.txt' % i)
             open(fn, 'w').write(''.join(recs[i::ns]))
             files.append(fn)
-        procs = [subprocess.Popen(['bash', '-c', 'ulimit -s unlimited; exec "$0" "$1"', drv, fn],
-                                  stdout=subprocess.PIPE, stderr=subprocess.PIPE) for fn in files]
+        # results go to files: a shard never waits on a full pipe while an earlier one is being read
+        procs = [_ShardProc(drv, fn) for fn in files]
         out = []
         for p in procs:
             o, e = p.communicate(timeout=7200)
